@@ -95,23 +95,14 @@ theorem auto_lifecycle {g g1 : Graph} (hWF : WF g) {p : Path} {nm ty : String} {
     apply getAttr_setAttr_self
     rw [node?_isSome_setAttr, node?_isSome_setAttr]
     exact hKc
-  -- links that existed lead to nodes that existed, none of which carries the fresh id
+  -- links that existed lead to nodes that existed
   have hold : ∀ k l, Has ((g.freshId).1.ensureGroup o.key "data_arrays").1 k →
       l ∈ ((g.freshId).1.ensureGroup o.key "data_arrays").1.links k →
-      Has ((g.freshId).1.ensureGroup o.key "data_arrays").1 l.2 ∧
-        ((g.freshId).1.ensureGroup o.key "data_arrays").1.entityId l.2 ≠ some (g.freshId).2 := by
+      Has ((g.freshId).1.ensureGroup o.key "data_arrays").1 l.2 := by
     intro k l _ hl
     have oldOK : ∀ l' : String × Nat, l' ∈ g.links k →
-        Has ((g.freshId).1.ensureGroup o.key "data_arrays").1 l'.2 ∧
-          ((g.freshId).1.ensureGroup o.key "data_arrays").1.entityId l'.2 ≠ some (g.freshId).2 := by
-      intro l' hl'
-      refine ⟨hU.keeps _ (wf_has_target hWF hl'), ?_⟩
-      rw [entityId_eq, getAttr_ensureGroup]
-      intro he
-      obtain ⟨m, hm, hi⟩ := hWF.ids_wf l'.2 _ he
-      have : idStr g.nextId = idStr m := hi
-      have := idStr_inj this
-      omega
+        Has ((g.freshId).1.ensureGroup o.key "data_arrays").1 l'.2 :=
+      fun l' hl' => hU.keeps _ (wf_has_target hWF hl')
     rw [links_ensureGroup (g.freshId).1 "data_arrays" ho k] at hl
     split at hl
     · rcases List.mem_append.mp hl with h1 | h1
@@ -121,17 +112,10 @@ theorem auto_lifecycle {g g1 : Graph} (hWF : WF g) {p : Path} {nm ty : String} {
         rename_i hcn
         have e2 : ((g.freshId).1.ensureGroup o.key "data_arrays").2 = (g.freshId).1.nextKey := by
           rw [ensureGroup_of_none hcn.2]
-        refine ⟨e2 ▸ hcb, ?_⟩
-        rw [entityId_eq, getAttr_ensureGroup]
-        have hnone : (g.freshId).1.node? (g.freshId).1.nextKey = none := by
-          cases hh : (g.freshId).1.node? (g.freshId).1.nextKey with
-          | none => rfl
-          | some x => exact absurd (by unfold Has; rw [hh]; rfl) (keysLt_freshId hKl).fresh
-        rw [getAttr_of_node?_none hnone]
-        simp
+        exact e2 ▸ hcb
     · exact oldOK l hl
   intro hh hUh
-  have := dropAuto_unch P1 hcb hK1 hid hUh hold
+  have := dropAuto_unch P1 hcb hK1 (fun hK => hnk (.inl hK)) hid hUh hold
   exact Unch.trans hroot (Unch.after_same (sameOn_freshId _ g) hU) this
 
 /-- a successful `autoArray` is a successful `create_data_array` of the structural model -/
